@@ -1,10 +1,94 @@
-import I18n.Model.PyFmt
-import I18n.Spec.CPyPercent
+import I18n.Lemmas.PyFmtGroups
+/-!
+# C12 — the Python %-format parser is consistent with CPython's `%` operator
+
+`PyFmt.parse` is the model of `lib.strformat.python.FormatString` (hand-written scanner, `Conversion.__init__`,
+`add_argument`, the one-type-per-key check); `Spec.CPyPercent.format` is the reference model of CPython's `str % args`
+(success or the exception), validated against the running interpreter by the check on every run.
+`PlainPercent s` is the domain of the property: every conversion specification with conversion character `%` is
+exactly `%%`.  `Matches r a`: the arguments `a` have the shape and types the parser reports in `r`.
+-/
 namespace I18n.Props.C12
-open I18n I18n.PyFmt
+open I18n I18n.PyFmt I18n.Spec.CPyPercent I18n.Spec.PyFmtArgs
 open I18n.Generated
 
-theorem info_pin :
-    PyFormatTables.flagChars = ['#', '0', '-', ' ', '+'] ∧ PyFormatTables.lengthChars = ['h', 'l', 'L'] := ⟨rfl, rfl⟩
+theorem parse_loop {s : List Char} {r : Result} (h : parse s = .ok r) :
+    ∃ st, loop true (s.length + 1) s [] St.init = .ok st ∧ r.seq = st.seq ∧ r.map = groups st.map := by
+  unfold parse parseW at h
+  cases hl : loop true (s.length + 1) s [] St.init with
+  | error e => rw [hl] at h; cases h
+  | ok st =>
+    rw [hl] at h
+    simp only [] at h
+    split at h
+    · cases h; exact ⟨st, rfl, rfl, rfl⟩
+    · cases h
+
+/-- **If the parser accepts a string, CPython formats it** when given arguments of the shape and types the parser
+    reports: a tuple with a value of the reported type per entry of `seq_arguments` (an `int` for every `*`), or a mapping
+    with a value of the reported type under every key of `map_arguments`. -/
+theorem accept_formats {s : List Char} {r : Result} {a : Args} (hp : PlainPercent s) (h : parse s = .ok r)
+    (hm : Matches r a) : format s a = .ok () := by
+  obtain ⟨st, hl, hseq, hmap⟩ := parse_loop h
+  cases a with
+  | tuple vs =>
+    obtain ⟨m1, m2⟩ := hm
+    rw [hmap] at m1
+    have := groups_nil m1
+    rw [hseq] at m2
+    exact loop_tuple true _ _ _ _ _ hl hp this vs (by simpa [St.init] using m2)
+  | dict m =>
+    obtain ⟨m1, m2⟩ := hm
+    rw [hseq] at m1
+    refine loop_dict true _ _ _ _ _ hl hp m1 m (.one .other false) ?_
+    intro k e hke
+    simp only [St.init, List.length_nil, List.drop_zero] at hke
+    obtain ⟨es, h1, h2⟩ := groups_mem hke
+    rw [← hmap] at h1
+    obtain ⟨v, hv1, hv2⟩ := m2 k es h1
+    exact ⟨v, hv1, hv2 e h2⟩
+  | single v => exact absurd hm (by simp [Matches])
+
+/-- the error of `parse` is the error of the loop or `ArgumentTypeMismatch` -/
+theorem parse_error {s : List Char} {e : PErr} (h : parse s = .error e) :
+    loop true (s.length + 1) s [] St.init = .error e ∨ e = .ArgumentTypeMismatch := by
+  unfold parse parseW at h
+  cases hl : loop true (s.length + 1) s [] St.init with
+  | error e' => rw [hl] at h; cases h; exact Or.inl rfl
+  | ok st =>
+    rw [hl] at h
+    simp only [] at h
+    split at h
+    · cases h
+    · cases h; exact Or.inr rfl
+
+/-- **Rejection raises only the parser's own error type** (every string, no hypothesis): never an `AssertionError`,
+    `IndexError`, `ValueError`, …; `int(ch)` is only applied to one of the ten ASCII digits. -/
+theorem error_own {s : List Char} {e : PErr} (h : parse s = .error e) : e.own = true := by
+  rcases parse_error h with hl | rfl
+  · rcases loop_error_kinds true _ _ _ _ _ hl (Nat.lt_succ_self _) with r | r | r | r | r <;> subst r <;> rfl
+  · rfl
+
+/-- **A string CPython can format is rejected only for a documented reason**: mixing named and unnamed specifications,
+    one key used with two different types, a width or precision out of range. -/
+theorem reject_reasons {s : List Char} {e : PErr} (hp : PlainPercent s) (h : parse s = .error e)
+    (hf : ∃ a, format s a = .ok ()) :
+    e = .ArgumentIndexingMixture ∨ e = .ArgumentTypeMismatch ∨ e = .WidthRangeError ∨ e = .PrecisionRangeError := by
+  rcases parse_error h with hl | rfl
+  · rcases loop_error_kinds true _ _ _ _ _ hl (Nat.lt_succ_self _) with r | r | r | r | r
+    · obtain ⟨a, ha⟩ := hf
+      exact absurd ha (loop_reject true _ _ _ _ _ hl hp (Or.inl r) _)
+    · exact Or.inl r
+    · exact Or.inr (Or.inr (Or.inl r))
+    · exact Or.inr (Or.inr (Or.inr r))
+    · obtain ⟨a, ha⟩ := hf
+      exact absurd ha (loop_reject true _ _ _ _ _ hl hp (Or.inr r) _)
+  · exact Or.inr (Or.inl rfl)
+
+/-- **What the parser rejects as malformed (`Error`), CPython rejects whatever the arguments.** -/
+theorem error_means_malformed {s : List Char} (hp : PlainPercent s) (h : parse s = .error .Error) (a : Args) :
+    format s a ≠ .ok () := by
+  intro ha
+  rcases reject_reasons hp h ⟨a, ha⟩ with r | r | r | r <;> cases r
 
 end I18n.Props.C12
